@@ -49,24 +49,39 @@ Theorem input_order_complete_without_fault :
 Proof. exact no_fault_complete_lemma. Qed.
 Print Assumptions input_order_complete_without_fault.
 
-(* what the demanded sequence says, per key / per round *)
+(* what the demanded sequence says, per key / per round.  [o]: the launcher's pop-up is open.
+   The topmost widget is the open pop-up (under pop_ups=True), else the body. *)
 Theorem unhandled_exactly_when_not_handled :
-  forall c x, w_selectable c = true -> c_unhandled c <> None ->
-    let r := widget_keypress c x in
-    In (TUnhandled (KKey r)) (spec_key c (KKey x)) <-> (r <> 0 /\ r <> 12).
+  forall c o x, w_selectable c = true -> c_unhandled c <> None ->
+    let r := keypress_result c o x in
+    In (TUnhandled (KKey r)) (fst (spec_key c o (KKey x))) <-> (r <> 0 /\ r <> 12).
 Proof. exact unhandled_iff_lemma. Qed.
 Print Assumptions unhandled_exactly_when_not_handled.
 
 Theorem mouse_unhandled_exactly_when_not_handled :
-  forall c b cl rw, w_has_mouse c = true -> c_unhandled c <> None ->
-    In (TUnhandled (KMouse b cl rw)) (spec_key c (KMouse b cl rw)) <-> widget_mouse c b = false.
+  forall c o b cl rw, w_has_mouse c = true -> c_unhandled c <> None ->
+    In (TUnhandled (KMouse b cl rw)) (fst (spec_key c o (KMouse b cl rw))) <->
+    (pop_shown c o = true \/ widget_mouse c b = false).
 Proof. exact mouse_unhandled_iff_lemma. Qed.
 Print Assumptions mouse_unhandled_exactly_when_not_handled.
 
 Theorem every_round_ends_with_a_redraw :
-  forall c r, exists l, spec_round c r = l ++ [TRender; TDraw].
+  forall c o r, exists l, fst (spec_round c o r) = l ++ [TRender; TDraw].
 Proof. exact round_ends_with_redraw_lemma. Qed.
 Print Assumptions every_round_ends_with_a_redraw.
+
+(* pop-ups (pop_ups=True, a PopUpLauncher whose create_pop_up() returns a cached widget): for EVERY history
+   of keys - any number of open / close / reopen - each key goes to the pop-up exactly while it is open and
+   to the body otherwise, as the obvious two-state automaton [route] says, and the pop-up state follows
+   [route_state].  (With [input_order] and [run_outcome_cases] this covers the interpreter: PopUpTarget's
+   bookkeeping never gets out of step, no AttributeError can leave run().) *)
+Theorem popup_gets_the_keys_exactly_while_open :
+  forall c, c_pop_ups c = true -> c_launcher c = true -> w_selectable c = true ->
+    forall ks o,
+      filter is_keypress (fst (spec_keys c o ks)) = route o ks /\
+      snd (spec_keys c o ks) = route_state o ks.
+Proof. exact popup_routing_lemma. Qed.
+Print Assumptions popup_gets_the_keys_exactly_while_open.
 
 (* --- clause 2: ExitMainLoop ends run() normally --- *)
 Theorem exit_is_normal :
@@ -114,12 +129,12 @@ Print Assumptions always_restored_full.
 
 (* --- non-vacuity: the model computes something, the hypotheses are satisfiable --- *)
 Definition ex_config : config :=
-  Config true (Some [99]) (Some false) true true true true true false [7] true true [(97, 0); (98, 12)] [1] true.
+  Config true (Some [99]) (Some false) true true true true true false [7] true true [(97, 0); (98, 12)] [1] true false [].
 Definition ex_rounds : list (list event) :=
   [[EInput [KKey 97; KKey 98; KKey 99; KKey 100; KMouse 1 3 2; KMouse 2 3 2]; EAlarm 5]; [EResize]; [EPipe 1 65]].
 
 Example ex_wf : wf_config ex_config.
-Proof. intros _. reflexivity. Qed.
+Proof. reflexivity. Qed.
 
 Example ex_initial : initial_modes (normal_term 42 2 1 0).
 Proof. repeat split. Qed.
@@ -139,7 +154,7 @@ Proof. vm_compute. repeat split; reflexivity. Qed.
 
 (* the former refutation witness: an application handler (id 2) on SIGCONT survives run() *)
 Definition sigcont_witness_config : config :=
-  Config true None None false false false false false false [] true true [] [] false.
+  Config true None None false false false false false false [] true true [] [] false false [].
 Example ex_sigcont_kept :
   tm (snd (session sigcont_witness_config [] [] [] (init_st (normal_term 0 0 0 2)))) = normal_term 0 0 0 2.
 Proof. vm_compute. reflexivity. Qed.
@@ -153,10 +168,27 @@ Proof. vm_compute. repeat split; reflexivity. Qed.
 
 (* ExitMainLoop from the idle redraw of a screen without hook_event_loop *)
 Definition ex_plain_config : config :=
-  Config false None (Some true) true false false false false false [4] true true [] [] false.
+  Config false None (Some true) true false false false false false [4] true true [] [] false false [].
 Example ex_plain_exit :
   let rs := session ex_plain_config [(3, FExit)] [] [[KKey 97]; []; [KKey 98]] (init_st (normal_term 0 0 0 0)) in
   fst rs = ROk tt /\ n (snd rs) = 4 /\
   acts (snd rs) = [TRender; TDraw; TKeypress 97; TUnhandled (KKey 97); TAlarm 4] /\
   tm (snd rs) = normal_term 0 0 0 0 /\ s_started (scr (snd rs)) = false.
+Proof. vm_compute. repeat split; reflexivity. Qed.
+
+(* pop-up opened ('o' = 111), a key for it (107, handled by the pop-up), closed ('x' = 120), the same key now
+   for the body (unhandled), opened again, a key the pop-up does not handle (106), closed *)
+Definition ex_popup_config : config :=
+  Config true None (Some false) false true false false false false [] true true [] [] false true [107].
+Example ex_popup_wf : wf_config ex_popup_config.
+Proof. reflexivity. Qed.
+Example ex_popup_reopen :
+  let rs := session ex_popup_config [] [[EInput [KKey 111; KKey 107; KKey 120; KKey 107; KKey 111; KKey 106; KKey 120]]] []
+                    (init_st (normal_term 0 0 0 0)) in
+  fst rs = ROk tt /\
+  filter is_keypress (acts (snd rs)) =
+    [TKeypress 111; TPopKey 107; TPopKey 120; TKeypress 107; TKeypress 111; TPopKey 106; TPopKey 120] /\
+  filter (fun t => match t with TUnhandled _ => true | _ => false end) (acts (snd rs)) =
+    [TUnhandled (KKey 107); TUnhandled (KKey 106)] /\
+  tm (snd rs) = normal_term 0 0 0 0.
 Proof. vm_compute. repeat split; reflexivity. Qed.
